@@ -150,7 +150,7 @@ def gen_axil_script(rng, dw, base, n):
     return writes, reads
 
 
-def gen_axi_script(rng, dw, base, n, narrow=True, feature=None):
+def gen_axi_script(rng, dw, base, n, narrow=True, feature=None, ratio=1):
     """feature (C10): restricts the bursts to one feature class: 'wrap' (full size), 'fixed' (full size, aligned),
     'narrow' (INCR, size < bus, aligned to size), 'unaligned' (INCR, full size, unaligned start), 'incr' (INCR, full size,
     aligned to the bus word, any length)"""
@@ -165,9 +165,13 @@ def gen_axi_script(rng, dw, base, n, narrow=True, feature=None):
             ln = rng.choice([0, 0, 1, 2, 3, 5, 7, 15]) if burst != axm.WRAP else rng.choice([1, 3, 7, 15])
             addr = rng.randrange(WORDS * nb)
             if feature is not None:
-                burst = {"wrap": axm.WRAP, "fixed": axm.FIXED}.get(feature, axm.INCR)
+                burst = {"wrap": axm.WRAP, "wrapfit": axm.WRAP, "wraplong": axm.WRAP, "fixed": axm.FIXED}.get(feature, axm.INCR)
                 size = smax if feature != "narrow" else rng.randint(0, max(0, smax - 1))
                 ln = rng.choice([1, 3, 7, 15]) if burst == axm.WRAP else rng.choice([0, 1, 2, 3, 4, 5, 7, 8, 15])
+                if feature == "wrapfit":
+                    ln = rng.choice([l for l in (1, 3, 7, 15) if (l + 1) * ratio <= 16])
+                elif feature == "wraplong":
+                    ln = rng.choice([l for l in (1, 3, 7, 15) if (l + 1) * ratio > 16])
                 if feature != "unaligned":
                     addr &= ~((1 << size) - 1)
                 elif addr % nb == 0:
